@@ -8,6 +8,7 @@ import (
 	"sort"
 	"strconv"
 	"strings"
+	"sync"
 
 	"golang.org/x/mod/modfile"
 	"golang.org/x/mod/module"
@@ -28,12 +29,18 @@ type caseT struct {
 	// Then: a second request applied to the same File right after the first (either setter: "SR:<request>"
 	// or "SRSI:<request>"); the oracle then judges the file against this second request.
 	Then string `json:"then,omitempty"`
+	// Raw: the setter is called on the file as parsed, without a Cleanup first (which would already have
+	// dropped empty blocks and collapsed blocks of one line).
+	Raw bool `json:"no_cleanup_before_the_call,omitempty"`
 }
 
 func (c caseT) key() string {
 	k := c.Setter + "|" + c.Request + "|" + c.Seed
 	if c.Alias {
 		k = "alias|" + k
+	}
+	if c.Raw {
+		k = "raw|" + k
 	}
 	if c.Then != "" {
 		k = "then " + c.Then + "|" + k
@@ -372,7 +379,9 @@ func runMod(c caseT) (msg string, out string) {
 				msg = fmt.Sprintf("%s panicked: %v", c.Setter, e)
 			}
 		}()
-		f.Cleanup()
+		if !c.Raw {
+			f.Cleanup()
+		}
 		if c.Alias {
 			for i, rq := range req {
 				for _, own := range f.Require {
@@ -662,6 +671,25 @@ func runWork(c caseT) (msg, out string) {
 	return "", out
 }
 
+// smallBlock reports whether the seed has a block of no or one line (what a Cleanup before the call changes).
+var smallBlockMemo sync.Map
+
+func smallBlock(seed string) bool {
+	if v, ok := smallBlockMemo.Load(seed); ok {
+		return v.(bool)
+	}
+	res := false
+	if f, err := modfile.Parse("go.mod", []byte(seed), nil); err == nil {
+		for _, st := range f.Syntax.Stmt {
+			if b, ok := st.(*modfile.LineBlock); ok && len(b.Line) <= 1 {
+				res = true
+			}
+		}
+	}
+	smallBlockMemo.Store(seed, res)
+	return res
+}
+
 func runCase(c caseT) (string, string) {
 	if c.Work {
 		return runWork(c)
@@ -741,6 +769,14 @@ func Run(r *fw.Run) {
 		"module example.com/m\n\ngo 1.21\n\nrequire (\n\ta.com/x v1.0.0 // s1\n\n\t// b2\n\tb.com/y v1.1.0 // s2\n)\n",
 		"module example.com/m\n\ngo 1.21\n\nrequire (\n\ta.com/x v1.0.0 // indirect\n\n\t// b2\n\t// b2b\n\tb.com/y v1.1.0 // indirect; s2\n\n\t// b3\n\tc.com/z v1.0.0\n)\n",
 		"module example.com/m\n\ngo 1.21\n\nrequire (\n\n\t// b1\n\ta.com/x v1.0.0\n\n\n\t// b2\n\tb.com/y v1.1.0\n)\n")
+	// empty blocks that carry a comment of their own (the only place where a comment belongs to the block
+	// statement itself): once a bulk call leaves one requirement there and Cleanup collapses the block, that
+	// comment sits on the requirement's line
+	sds = append(sds,
+		"module example.com/m\n\ngo 1.21\n\nrequire () // indirect\n",
+		"module example.com/m\n\ngo 1.21\n\nrequire () // indirect; kept for later\n",
+		"module example.com/m\n\ngo 1.21\n\nrequire () // nothing yet\n\nrequire a.com/x v1.0.0 // indirect\n",
+		"module example.com/m\n\ngo 1.21\n\n// above\nrequire () // indirect\n\nexclude () // indirect\n")
 	// long blocks (sorting code changes strategy above a dozen or two elements): 45 requirements and 45
 	// exclusions in scrambled order, every line with its own end-of-line comment
 	{
@@ -833,6 +869,19 @@ func Run(r *fw.Run) {
 							l.Outcomes[setter+":VIOLATION"]++
 							r.Violation(ct.key(), "second bulk call ("+then+") on the same File: "+msgT, ct)
 						}
+					}
+				}
+				// the same call on the file as parsed (no Cleanup first), where that makes a difference: seeds with
+				// a block of no or one line
+				if msg == "" && smallBlock(sds[i]) {
+					cr := c
+					cr.Raw = true
+					l.Execs++
+					if msgR, _ := runCase(cr); msgR != "" {
+						l.Outcomes[setter+":VIOLATION"]++
+						r.Violation(cr.key(), "called on the file as parsed: "+msgR, cr)
+					} else {
+						l.Outcomes[setter+":as-parsed:ok"]++
 					}
 				}
 				// the same request built from the file's own entries edited in place (every third seed in the
